@@ -231,6 +231,26 @@ def concrete_function(base, tables, nres=1):
     return f
 
 
+def generic_user_functions():
+    """Concrete user functions for replays that do not depend on a model: results depend on the arguments and are never 0
+    (a model's table defaults to 0, which turns  x / g(..)  into a ZeroDivisionError that the symbolic run, where `/` is
+    uninterpreted, never sees)."""
+    def mk(salt, nres=1):
+        def f(*args, **kw):
+            acc = salt
+            for a in list(args) + [kw[k] for k in sorted(kw)]:
+                vals = list(a) if (type(a).__name__ == "ndarray" or isinstance(a, (list, tuple))) else [a]
+                for v in vals:
+                    try:
+                        acc = (acc * 31 + int(v) * 7 + 3) % 1009
+                    except (TypeError, ValueError, OverflowError):
+                        acc = (acc * 31 + 5) % 1009
+            r = 1 + acc % 5
+            return r if nres == 1 else tuple(r + i for i in range(nres))
+        return f
+    return {"<func>f": mk(1), "<func>g": mk(2), "<func>h2": mk(3, 2)}
+
+
 def concrete_user_functions(tables):
     return {"<func>f": concrete_function("<func>f", tables), "<func>g": concrete_function("<func>g", tables),
             "<func>h2": concrete_function("<func>h2", tables, 2)}
